@@ -150,9 +150,15 @@ def candles(rng, n, kind='walk', base=100.0, step=60_000):
         elif kind == 'lattice':           # small integers: exact in floats, many ties
             o = p
             c = float(max(1, round(p + rng.choice([-2, -1, 0, 0, 1, 2]))))
+        elif kind == 'session':
+            # a walk over calendar boundaries: the series starts 23 minutes before 00:00 UTC, and nothing trades (zero
+            # volume, flat candle) in its first two minutes, in the first minutes of the new day / of every hour, and now
+            # and then in between — what anchored (per day / per hour) indicators and volume-weighted ones must survive
+            o = p
+            c = p if _quiet(i, rng) else max(o * (1 + rng.gauss(0, 0.01)), base * 1e-3)
         else:
             raise ValueError(kind)
-        if kind == 'flat' or (kind == 'stall' and (i // 23) % 3 == 1):
+        if kind == 'flat' or (kind == 'stall' and (i // 23) % 3 == 1) or (kind == 'session' and c == o):
             h = l = o
         elif kind == 'lattice':
             h = max(o, c) + rng.choice([0, 0, 1])
@@ -161,9 +167,20 @@ def candles(rng, n, kind='walk', base=100.0, step=60_000):
             h = max(o, c) * (1 + abs(rng.gauss(0, 0.002)))
             l = min(o, c) * (1 - abs(rng.gauss(0, 0.002)))
         v = float(rng.randint(1, 50)) if kind in ('lattice', 'flat') else abs(rng.gauss(100, 30)) + 1
+        if kind == 'session':
+            v = 0.0 if c == o else v
+            rows.append([1_599_955_200_000 - 23 * 60_000 + i * step, o, c, h, l, v])      # 2020-09-12 23:37 UTC + i minutes
+            p = c
+            continue
         rows.append([1_600_000_000_000 + i * step, o, c, h, l, v])
         p = c
     return np.array(rows, dtype=float).reshape(n, 6)
+
+
+def _quiet(i, rng):
+    """minutes of the 'session' series in which nothing trades"""
+    m = i - 23                      # minutes since 00:00 UTC
+    return i < 2 or 0 <= m < 4 or (m > 0 and m % 60 < 2) or rng.random() < 0.04
 
 
 KINDS = ['walk', 'trend', 'down', 'flat', 'spike', 'alt', 'lattice', 'gappy', 'stall']
